@@ -8,7 +8,8 @@ from typing import List, Optional, Tuple
 from ..cfg import NORMAL_KINDS, Label, Node
 from ..model import FuncInfo
 from ..queries import between, can_follow, count_paths, reach
-from .lib import GROUPS, NUM, RUN, Ctx, dominated_by_completion, field_of
+from .lib import GROUPS, NUM, RUN, Ctx, dominated_by_completion, field_of, key_lookup_guarded, r_not_found_only_when_absent
+from ..exc import KEYERROR
 from .shared import expr_role
 
 Part = Tuple[str, str]  # ('lit', text) | ('expr', source)
@@ -91,6 +92,13 @@ def template(ctx: Ctx, f: FuncInfo, e: Optional[ast.AST], _depth: int = 0) -> Op
         c = ctx.vals.const(f, e)
         if c is not None and isinstance(c.value, (str, int)) and e.id not in sc.defs and e.id not in sc.params:
             return [("lit", str(c.value))]  # module-level constant
+        if e.id in sc.defs and e.id not in sc.params and all(h[0] == "elt" for h in sc.defs[e.id]):
+            # `name, x = self._helper()`: the component the (spliced) helper returns, read in the helper's frame
+            ls = ctx.vals.leaves(f, None, e)
+            if len(ls) == 1 and ls[0][2] is not e and not (ls[0][0] is f and isinstance(ls[0][2], ast.Name) and ls[0][2].id == e.id):
+                t_ = template(ctx, ls[0][0], ls[0][2], _depth + 1)
+                if t_ is not None and not any(k == "expr" and v in ctx.an.scope(ls[0][0]).params and ls[0][0] is not f for k, v in t_):
+                    return t_
         return [("expr", e.id)]
     if isinstance(e, ast.NamedExpr):
         return template(ctx, f, e.value, _depth + 1)
@@ -333,7 +341,8 @@ def r_get_group_ids(ctx: Ctx, rule: str):
         va = f.node.args.vararg.arg if f.node.args.vararg else None
         effs = [e for e in ctx.func_trans_effects(f) if e.kind not in ("read",) and e.path.startswith("self")]
         rep.ob(rule, "get_group_ids does not modify the pool", not effs, func=f, construct=effs[0].node if effs else "no write effects")
-        rexits = {x.tok[0].rpartition(".")[2] for x in g.raise_exits.values() if x.pred}
+        rexits = {x.tok[0].rpartition(".")[2] for x in g.raise_exits.values() if x.pred and not (x.tok[0] == KEYERROR and all(key_lookup_guarded(ctx, f, p_) for p_, _l in x.pred))}
+        r_not_found_only_when_absent(ctx, rule, f, GROUPS, "TaskGroupNotFound")
         rep.ob(rule, "an unknown group name raises TaskGroupNotFound and nothing else escapes", rexits == {"TaskGroupNotFound"}, func=f, construct="raising exits", detail=str(sorted(rexits)))
         ups = ctx.distinct_sites(ctx.nodes(f, lambda n: n.op == "call" and isinstance(n.ast.func, ast.Attribute) and n.ast.func.attr in ("update", "__ior__") ))
         # every in-place set operation of the function must work on a set created here, never on a register taken from the table
@@ -383,10 +392,25 @@ def r_get_group_ids(ctx: Ctx, rule: str):
             rep.ob(rule, "the result is a fresh set (callers cannot alias a live register)", isinstance(v, ast.SetComp) or isinstance(ctx.vals.resolve(f, r.ast.value), ast.Call), node=r)
         rep.floor(rule, "union step in get_group_ids", len(ups) + len([1 for n_, _ in inplace if isinstance(n_, ast.AugAssign)]) + len(comps), 1)
         for u in ups:
-            a = ctx.vals.resolve(f, u.ast.args[0]) if u.ast.args else None
-            ok = isinstance(a, ast.Subscript) and ctx.eff.paths(f).of(a.value) == GROUPS and isinstance(a.slice, ast.Name)
             lp = u.loops[-1] if u.loops else None
-            over = isinstance(lp, ast.For) and isinstance(lp.iter, ast.Name) and lp.iter.id == va and isinstance(lp.target, ast.Name) and ok and a.slice.id == lp.target.id
+            loop_ok = isinstance(lp, ast.For) and isinstance(lp.iter, ast.Name) and lp.iter.id == va and isinstance(lp.target, ast.Name)
+            # what is merged: the table entry of this iteration's name - `table[name]`, or `table.get(name)` (directly, through a
+            # local, or returned by a helper spliced in); that the `get` form found the name is the business of the rule above
+            ls = ctx.vals.leaves_at(u, u.ast.args[0]) if u.ast.args else []
+            over = bool(ls) and loop_ok
+            for fr_, env_, a in ls:
+                key_e = cont_e = None
+                if isinstance(a, ast.Subscript):
+                    cont_e, key_e = a.value, a.slice
+                elif isinstance(a, ast.Call) and isinstance(a.func, ast.Attribute) and a.func.attr == "get" and 1 <= len(a.args) <= 2 and not a.keywords:
+                    cont_e, key_e = a.func.value, a.args[0]
+                if cont_e is None or ctx.eff.rebase(ctx.eff.paths(fr_).of(cont_e) or "", fr_, env_) != GROUPS:
+                    over = False
+                    break
+                kf, _ke, kl = ctx.vals.trace(fr_, env_, key_e)
+                if not (loop_ok and kf is f and isinstance(kl, ast.Name) and kl.id == lp.target.id):
+                    over = False
+                    break
             rep.ob(rule, "the ids of every named group's register are added to the result", over, node=u)
             recv = u.ast.func.value
             rets = ctx.distinct_sites(ctx.nodes(f, lambda n: n.op == "return" and n.ast.value is not None))
